@@ -115,26 +115,41 @@ func (in *Interp[K, V]) elK() *elem[K] {
 	return &elem[K]{'K', func(t any) K { return in.kc.Enc(toInt(t)) }, func(e K) any { return safeDec(in.kc, e) }}
 }
 
+// Association tokens are integer codes (see World.tla): ACode(k, v) =
+// 1000 + 32*k + (v+1); the nil association is token 0; v = -1 is "masked".
+func ACode(k, v int) int {
+	if k < 0 || v < -1 || v > 30 {
+		return Unknown
+	}
+	return 1000 + 32*k + (v + 1)
+}
+func AKey(t int) int { return (t - 1000) / 32 }
+func AVal(t int) int { return (t-1000)%32 - 1 }
+
 func (in *Interp[K, V]) elA() *elem[col.AssociationLike[K, V]] {
 	return &elem[col.AssociationLike[K, V]]{'A',
 		func(t any) col.AssociationLike[K, V] {
-			var p = toSeq(t)
-			return col.Association[K, V](in.notation).Make(in.kc.Enc(toInt(p[0])), in.vc.Enc(toInt(p[1])))
+			var c = toInt(t)
+			if c == 0 {
+				return nil
+			}
+			need(c >= 1000 && AVal(c) >= 0, "not an association token")
+			return col.Association[K, V](in.notation).Make(in.kc.Enc(AKey(c)), in.vc.Enc(AVal(c)))
 		},
 		func(a col.AssociationLike[K, V]) (tok any) {
 			defer func() {
 				if recover() != nil {
-					tok = []int{Unknown, Unknown}
+					tok = Unknown
 				}
 			}()
 			if isNilInterface(a) {
-				return []int{Unknown, Unknown}
+				return 0
 			}
 			var k = safeDec(in.kc, a.GetKey())
 			if in.owned[a] {
-				return []int{k, -1}
+				return ACode(k, -1)
 			}
-			return []int{k, safeDec(in.vc, a.GetValue())}
+			return ACode(k, safeDec(in.vc, a.GetValue()))
 		}}
 }
 
@@ -313,12 +328,14 @@ func rankTok(name string, a, b int) age.Rank {
 	panic(skip("unknown ranker " + name))
 }
 
+// keyTok is what a named ranker looks at: the token itself, or the key of an
+// association token.
 func keyTok(t any) int {
-	switch x := t.(type) {
-	case int:
+	if x, ok := t.(int); ok {
+		if x >= 1000 {
+			return AKey(x)
+		}
 		return x
-	case []int:
-		return x[0]
 	}
 	return Unknown
 }
